@@ -1219,6 +1219,21 @@ impl<'s> Semantics<'s> {
             block.index()
         };
 
+        // In 64-bit mode a 32-bit destination is written (and so zero-extended
+        // into the 64-bit register) even when the condition is false.
+        let false_index = {
+            let block = control_flow_graph.new_block()?;
+
+            if let (Mode::Amd64, x86_op_type::X86_OP_REG) = (self.mode(), detail.operands[0].type_) {
+                let dst = self.get_register(detail.operands[0].reg())?;
+                if dst.bits() == 32 {
+                    dst.set(block, dst.get()?)?;
+                }
+            }
+
+            block.index()
+        };
+
         let block_index = {
             let block = control_flow_graph.new_block()?;
 
@@ -1234,10 +1249,11 @@ impl<'s> Semantics<'s> {
         control_flow_graph.conditional_edge(head_index, block_index, condition.clone())?;
         control_flow_graph.conditional_edge(
             head_index,
-            tail_index,
+            false_index,
             Expr::cmpeq(condition, expr_const(0, 1))?,
         )?;
         control_flow_graph.unconditional_edge(block_index, tail_index)?;
+        control_flow_graph.unconditional_edge(false_index, tail_index)?;
 
         control_flow_graph.set_entry(head_index)?;
         control_flow_graph.set_exit(tail_index)?;
